@@ -101,6 +101,20 @@ def gen_project(rng):
             cands.append("let dv%s%d: %s::%sS = %s::%s_mk(%d); let dy%s%d: dyn %s::%sT = dv%s%d; let _ = string_println(%s::%sT::show(dy%s%d))" % (lo, n, d, d, d, lo, n, lo, n, d, d, lo, n, d, d, lo, n))
         for c in rng.sample(cands, min(len(cands), rng.randint(2, 5))):
             stmts.append("    let _ = %s;" % c if not c.startswith("let") else "    %s;" % c)
+    # a package that only declares types (no function bodies), used by Main
+    if rng.random() < 0.5:
+        feats.add("types-only-package")
+        files["Ty/types.gom"] = "package Ty\nenum Color { Red, Green(int32), Blue(bool, int32) }\nstruct Pt { x: int32, y: int32 }\nstruct Wrap[T] { inner: T }\n"
+        main.insert(1, "import Ty")
+        k1, k2 = rng.randint(0, 9), rng.randint(0, 9)
+        stmts.append("    let tyc%d = Ty::Color::Green(%d);" % (k1, k1))
+        stmts.append("    let _ = string_println(int32_to_string(match tyc%d { Ty::Color::Red => 0, Ty::Color::Green(g) => g + %d, Ty::Color::Blue(_, b) => b }));" % (k1, k2))
+        stmts.append("    let typ%d = Ty::Pt { x: %d, y: %d };" % (k1, k1, k2))
+        stmts.append("    let tyw%d = Ty::Wrap { inner: typ%d };" % (k1, k1))
+        stmts.append("    let _ = string_println(int32_to_string(tyw%d.inner.x + typ%d.y));" % (k1, k1))
+        types_pkg = True
+    else:
+        types_pkg = False
     # a second file of package Main that names constructors of a dependency by full path, with or without its own import
     if rng.random() < 0.6:
         d = rng.choice(main_imps)
@@ -120,7 +134,9 @@ def gen_project(rng):
             reach.add(x)
             todo += shape[x]
     deps = {p: list(shape[p]) for p in used if p in reach}
-    deps["Main"] = sorted(main_imps)
+    deps["Main"] = sorted(main_imps) + (["Ty"] if types_pkg else [])
+    if types_pkg:
+        deps["Ty"] = []
     return files, deps, feats
 
 
